@@ -26,6 +26,7 @@ import (
 	"runtime"
 	"sort"
 	"strings"
+	"sync/atomic"
 	"time"
 
 	log "github.com/sirupsen/logrus"
@@ -250,6 +251,22 @@ func (c *Ctx) Guard(d time.Duration, prop, sig, what string, f func()) (panicked
 	}
 }
 
+// fatalHook makes a log.Fatal of the code under test visible: the message goes to stderr
+// (the process then exits with status 1, which the check reports as a crash of the engine).
+type fatalHook struct{}
+
+// shuttingDown > 0 while a simulated cluster is being torn down
+var shuttingDown int32
+
+func (fatalHook) Levels() []log.Level { return []log.Level{log.FatalLevel, log.PanicLevel} }
+func (fatalHook) Fire(e *log.Entry) error {
+	if atomic.LoadInt32(&shuttingDown) > 0 {
+		return nil
+	}
+	fmt.Fprintf(os.Stderr, "log.Fatal in the code under test: %s %v\n", e.Message, e.Data)
+	return nil
+}
+
 type engine struct {
 	name string
 	run  func(*Ctx)
@@ -266,6 +283,13 @@ func main() {
 	}
 	name := os.Args[1]
 	log.SetOutput(io.Discard)
+	log.AddHook(fatalHook{})
+	log.StandardLogger().ExitFunc = func(code int) {
+		if atomic.LoadInt32(&shuttingDown) > 0 {
+			runtime.Goexit() // a group noticing that its database was closed during teardown
+		}
+		os.Exit(code)
+	}
 	fs := flag.NewFlagSet("h", flag.ExitOnError)
 	seed := fs.Uint64("seed", 1, "PRNG seed")
 	tier := fs.String("tier", "quick", "quick|thorough")
